@@ -71,10 +71,18 @@ impl Generator {
             }
         }
 
+        // the loop below nests one tuple level per step and is capped, and every
+        // step absorbs at most two items: discard what it could not absorb, so
+        // that STOP always finds exactly one item
+        const MAX_COLLAPSE_STEPS: usize = 10000;
+        while self.state.stack.len() > 1 + 2 * MAX_COLLAPSE_STEPS {
+            self.emit_opcode(Pop);
+        }
+
         // keep combining until we have exactly 1 item
         // use TUPLE2/TUPLE3 which don't require MARKs
         let mut safety_counter = 0;
-        while self.state.stack.len() > 1 && safety_counter < 10000 {
+        while self.state.stack.len() > 1 && safety_counter < MAX_COLLAPSE_STEPS {
             safety_counter += 1;
 
             let stack_len = self.state.stack.len();
